@@ -426,7 +426,11 @@ def run_ctorlist(ctx, p):
             ctx.bad('state', dict(sig, kind='construct_raised', exc=type(err).__name__), '%s raised %r' % (what(), err))
         else:
             ctx.judge('state', type(x) is C, dict(sig, kind='wrong_class'), lambda: '%s gives a %s' % (what(), type(x).__name__))
-            state_ok(ctx, c, x, model, sig, what)
+            # (UnitQuaternion re-normalises on construction: 1 ulp, as for the copy constructor)
+            d_ = getattr(x, 'data', None)
+            ok = isinstance(d_, list) and len(d_) == len(model) and all(isinstance(v, np.ndarray) and eq_arr(c, v, m, readout=True) for v, m in zip(d_, model))
+            ctx.judge('state', ok, dict(sig, kind='state_differs_from_model'),
+                      lambda: '%s: object holds %s, the list model holds %s' % (what(), core.short(d_, 400), core.short(model, 400)))
     else:
         d_ = getattr(x, 'data', None)
         ctx.judge('errors', err is not None, dict(sig, kind='bad_list_accepted'),
